@@ -555,7 +555,7 @@ func indexLed(p *parser, t *token, left *token) *token {
 		if p.Token.Symbol != "]" {
 			t.Append(p.Expression(0))
 		} else {
-			t.Append(&token{Pos: p.Token.Pos, Symbol: "(int)", Text: "-1"})
+			t.Append(&token{Pos: p.Token.Pos, Symbol: "(end)", Text: "-1"})
 		}
 	}
 	p.Advance("]")
